@@ -46,6 +46,8 @@ def main(argv) -> int:
             from . import thorough
             rc = thorough.extra(pid, rc, a.repo)
         return rc
+    except BrokenPipeError:
+        return 0 if False else 141
     except AnalysisError as exc:
         print(f'ANALYSIS-ERROR property={pid} {exc}')
         return 2
